@@ -30,7 +30,9 @@ DATES = [b'Mon, 01 Jan 2001 10:00:00 +0000', b'1 Jan 2001 10:00 -0500',
          b'Mon, 01 Jan 99999 10:00:00 +0000', b'1 Jan 2001 25:61:61 +9999',
          b'Thu, 1 Jan 1970 00:00:00 GMT', b'\xff\xff', b'Mon,',
          b'Sat, 29 Feb 2001 10:00:00 +0000']
-ADDRS = [b'a@b.c', b'A <a@b.c>', b'"A, B" <a@b.c>', b'a@b.c, d@e.f',
+ADDRS = [b'.bob@x.y', b'bob.@x.y', b'a..b@x.y', b'a@x.y, .b@x.y',
+         b'a@x.y,\r\n .b@x.y', b'g: a@x.y, .b@x.y;', b'a@.x.y', b'a@x..y',
+         b'"a"."b"@x.y', b'a@x.y (c(d(e)))', b'a@b.c', b'A <a@b.c>', b'"A, B" <a@b.c>', b'a@b.c, d@e.f',
          b'grp: a@b.c, d@e.f;', b'grp:;', b'<>', b'@', b'a@', b'@b', b',',
          b'a@b.c,', b'"unterminated <a@b', b'(comment) a@b.c', b'<a@b.c',
          b'=?utf-8?q?J=C3=B6rg?= <j@x.y>', b'\xc3\xa9 <e@x.y>', b'a b c',
@@ -74,6 +76,10 @@ def header_value(name: bytes) -> Any:
         base = st.one_of(
             text_bytes(),
             st.integers(1, 400).map(lambda n: b're: ' * n + b'x'),
+            st.sampled_from([900, 1500, 3000]).map(
+                lambda n: b're:' * n + b'x'),
+            st.sampled_from([900, 3000]).map(
+                lambda n: b'[x] ' * n + b'y' + b' (fwd)' * n),
             st.integers(1, 60).map(lambda n: b'[fwd: ' * n + b'x' + b']' * n),
             st.sampled_from([b'Re: Re: fwd: x (fwd)', b're[2]: x', b'[a] b',
                              b'Fwd: [x]', b'', b' ', b'(fwd)', b're:',
@@ -149,8 +155,27 @@ def mime_message(depth: int = 0) -> Any:
     return st.one_of(multipart, multipart, rfc822)
 
 
+def deep_message() -> Any:
+    """nesting far beyond what a recursive walk over the structure allows"""
+    rfc = st.sampled_from([60, 400, 1200]).map(
+        lambda n: b'Content-Type: message/rfc822\r\n\r\n' * n
+        + b'Subject: innermost\r\n\r\nx\r\n')
+
+    def multi(n: int) -> bytes:
+        out = b''
+        for i in range(n):
+            out += b'Content-Type: multipart/mixed; boundary=b%d\r\n\r\n' \
+                   b'--b%d\r\n' % (i, i)
+        out += b'Content-Type: text/plain\r\n\r\nx\r\n'
+        for i in reversed(range(n)):
+            out += b'--b%d--\r\n' % i
+        return out
+    return st.one_of(rfc, st.sampled_from([60, 400, 1200]).map(multi))
+
+
 def any_message() -> Any:
     return st.one_of(
+        deep_message(),
         st.binary(min_size=1, max_size=200),
         line_message(), line_message(), mime_message(),
         st.sampled_from([b'\r\n', b'\n', b'x', b'Subject: x\r\n', b'A: b',
@@ -169,6 +194,9 @@ NASTY = [b'', b' ', b'&', b'&-', b'&AAo-', b'&AOk', b'&!!-', b'&AO-',
          b'0', b'4294967296', b'99999999999999999999999', b'-1', b'1:', b':1',
          b'1,,2', b'$', b'1.5', b'\\Seen', b'\\*', b'\\', b'\\\\Seen',
          b'(' * 40, b')' * 5, b'((((((((((((((((((((((((((((((((',
+         b'9' * 4301, b'1' + b'0' * 5000, b'{' + b'9' * 4400 + b'}',
+         b'*' * 25 + b'b', b'%' * 25 + b'b', b'*a' * 14 + b'*b',
+         b'%a' * 14 + b'%b', b'&2AA-', b'&2D3YPQ-', b'x&3AA-y',
          b'a' * 300, b'"' + b'a' * 100 + b'"', b'CHARSET', b'utf-16',
          b'US-ASCII', b'bogus-charset', b'UTF-8', b'idna', b'undefined',
          b'unicode_escape', b'rot13', b'zlib', b'base64']
